@@ -4,7 +4,6 @@ from __future__ import annotations
 
 import copy
 from abc import ABC
-from contextlib import suppress
 from functools import partial
 from typing import TYPE_CHECKING
 from typing import Awaitable
@@ -13,6 +12,7 @@ from typing import Mapping
 
 from typing_extensions import Protocol
 
+from liquid2.exceptions import LiquidValueError
 from liquid2.utils import LRUCache
 from liquid2.utils import ThreadSafeLRUCache
 
@@ -194,13 +194,19 @@ class CachingLoaderMixin(ABC, _CachingLoaderProtocol):
             return name
 
         # Args take priority over context variables.
-        with suppress(KeyError):
-            return f"{args[self.namespace_key]}/{name}"
+        try:
+            namespace = args[self.namespace_key]
+        except KeyError:
+            if context is None:
+                return name
 
-        if context is None:
-            return name
+            try:
+                namespace = context.globals[self.namespace_key]
+            except KeyError:
+                return name
 
         try:
-            return f"{context.globals[self.namespace_key]}/{name}"
-        except KeyError:
-            return name
+            return f"{namespace}/{name}"
+        except ValueError as err:
+            # An integer with more digits than the interpreter is willing to convert.
+            raise LiquidValueError(str(err), token=None) from err
